@@ -57,7 +57,10 @@ var zzRuleMaster = []bool{true, false, false, false, true, true}
 // ZZH_C03_verify_proof: CheckProof on an appchain IBTP with symbolic proof bytes / committed
 // hash / type / registration / rule list / rule verdict: accepted only if the proof hashes to
 // ibtp.Proof, the chain the IBTP claims to come from is registered, the rule consulted is an
-// AVAILABLE rule of exactly that chain, and the rule said yes.
+// AVAILABLE rule of exactly that chain, and the rule said yes. No combination crashes the pool (C08:
+// CheckProof runs in goroutines nobody recovers), and the verdict does not depend on what the
+// long-lived pool verified before (C01).
+// zz:also C08 C01
 func ZZH_C03_verify_proof() {
 	pl, ve, lg := zzPool()
 	// registered appchain chA (and maybe chB); the chain the IBTP originates from has a symbolic rule list
@@ -112,10 +115,16 @@ func ZZH_C03_verify_proof() {
 	tx := &pb.BxhTransaction{IBTP: ibtp, Extra: proof, TransactionHash: types.NewHashByStr("0x1111111111111111111111111111111111111111111111111111111111111111")}
 	// the pool is long-lived: optionally another IBTP of the same chain with the same proof
 	// bytes was verified (and accepted by the rule) earlier
-	if zz.Choice("earlierIBTP", 2) == 1 {
+	// (or the very same IBTP with the same proof: a pier re-submits it; what the rule said then must
+	// not be remembered, because the rule, its binding and the trust root are ledger state that
+	// may have changed since - a restarted node would ask the rule again)
+	if e := zz.Choice("earlierIBTP", 3); e > 0 {
 		savedOK, savedFail := ve.ok, ve.fail
 		ve.ok, ve.fail = true, false
 		earlier := &pb.IBTP{From: from, To: to, Index: 7, Type: typ, Proof: commits[ck], Payload: []byte("other payload")}
+		if e == 2 {
+			earlier = &pb.IBTP{From: from, To: to, Index: 1, Type: typ, Proof: commits[ck]}
+		}
 		_, _, _ = pl.CheckProof(&pb.BxhTransaction{IBTP: earlier, Extra: proof, TransactionHash: types.NewHashByStr("0x2222222222222222222222222222222222222222222222222222222222222222")})
 		ve.ok, ve.fail, ve.calls, ve.address, ve.from = savedOK, savedFail, 0, "", ""
 	}
